@@ -154,6 +154,10 @@ func (s *Sx) Subst(m map[string]*Sx) *Sx {
 		if r, ok := m[s.Atom]; ok {
 			return r
 		}
+		if strings.ContainsAny(s.Atom, "[.") {
+			// Go path: substitute the root and bracketed index atoms
+			return A(substPath(s.Atom, m))
+		}
 		return s
 	}
 	out := &Sx{IsL: true, List: make([]*Sx, len(s.List))}
@@ -190,4 +194,50 @@ func parenBalance(s string) int {
 		}
 	}
 	return n
+}
+
+// substPath substitutes atoms inside a Go path `root(.f|[idx])*`: the root and the index
+// expressions, when the replacement is itself an atom.
+func substPath(p string, m map[string]*Sx) string {
+	var b strings.Builder
+	i := 0
+	// root
+	j := 0
+	for j < len(p) && p[j] != '.' && p[j] != '[' {
+		j++
+	}
+	root := p[:j]
+	if r, ok := m[root]; ok && r.IsAtom() {
+		root = r.Atom
+	}
+	b.WriteString(root)
+	i = j
+	for i < len(p) {
+		if p[i] == '[' {
+			depth := 0
+			st := i + 1
+			for ; i < len(p); i++ {
+				if p[i] == '[' {
+					depth++
+				} else if p[i] == ']' {
+					depth--
+					if depth == 0 {
+						break
+					}
+				}
+			}
+			idx := p[st:i]
+			if r, ok := m[idx]; ok && r.IsAtom() {
+				idx = r.Atom
+			} else if strings.ContainsAny(idx, "[.") {
+				idx = substPath(idx, m)
+			}
+			b.WriteString("[" + idx + "]")
+			i++
+		} else {
+			b.WriteByte(p[i])
+			i++
+		}
+	}
+	return b.String()
 }
